@@ -1965,6 +1965,19 @@ impl Db {
 		}
 	}
 
+	/// Verification hook: read-only dump of the node forest of a multitree column (roots, nodes
+	/// with their children, ref-count tables and cache); `None` for any other column.
+	#[cfg(pdb_verif)]
+	pub fn verif_multitree_dump(&self, col: ColId) -> Result<Option<crate::verif::MultiTreeDump>> {
+		if !self.inner.options.columns[col as usize].multitree {
+			return Ok(None)
+		}
+		match &self.inner.columns[col as usize] {
+			Column::Hash(c) => c.verif_multitree_dump(&self.inner.log).map(Some),
+			Column::Tree(_) => Ok(None),
+		}
+	}
+
 	#[cfg(feature = "instrumentation")]
 	pub fn process_reindex(&self) -> Result<()> {
 		self.inner.process_reindex()?;
